@@ -115,7 +115,8 @@ def limits(timeout_s: float) -> dict[str, int]:
 
 def execute(env: ScriptEnv, *, client_retry: int, override_retry: int | None,
             client_timeout: float, override_timeout: float | None,
-            reconfigured_from: tuple[int, float] | None = None, via: str = "typed") -> dict[str, Any]:
+            reconfigured_from: tuple[int, float] | None = None, via: str = "typed",
+            slow: tuple[float, float] | None = None) -> dict[str, Any]:
     """Run one real UDSClient.request() against env; return the trace record.
     reconfigured_from = (max_retry, timeout): the client was constructed with these values, served one
     config-less request, and was then reconfigured by attribute assignment (as `scan uds services` does with
@@ -123,6 +124,9 @@ def execute(env: ScriptEnv, *, client_retry: int, override_retry: int | None,
     R = override_retry if override_retry is not None else client_retry
     tmo = override_timeout if override_timeout is not None else client_timeout
     out: dict[str, Any] = {}
+
+    if slow is not None:
+        env.write_delay, env.reply_delay = slow[0] * tmo, slow[1] * tmo
 
     async def go() -> None:
         tr = ScriptedTransport(env)
@@ -191,7 +195,7 @@ def execute(env: ScriptEnv, *, client_retry: int, override_retry: int | None,
             "cfg": {"client_retry": client_retry, "override_retry": override_retry,
                     "client_timeout": client_timeout, "override_timeout": override_timeout,
                     "reconfigured_from": list(reconfigured_from) if reconfigured_from else None,
-                    "via": via}}
+                    "via": via, "slow": list(slow) if slow else None}}
 
 
 def script_of(trace: dict[str, Any]) -> list[str]:
@@ -310,7 +314,7 @@ def run(tier: str, seed: int) -> Report:
     seen: set[str] = set()
 
     def add(t: dict[str, Any], origin: str) -> None:
-        key = json.dumps([t["R"], t["timeout_ms"], t["seq"], t["cfg"].get("via")])
+        key = json.dumps([t["R"], t["timeout_ms"], t["seq"], t["cfg"].get("via"), t["cfg"].get("slow")])
         if key in seen:
             return
         seen.add(key)
@@ -356,6 +360,16 @@ def run(tier: str, seed: int) -> Report:
 
         for _vec, t in explore(runit4, 3 if tier == "quick" else 5):
             add(t, "enum-raw")
+    # a transport on which sending and answering each take most of (but less than) the request timeout
+    for R in (0, 2):
+        for slow in ((0.6, 0.6), (0.9, 0.0), (0.0, 0.9)):
+
+            def runit5(ch: Any, R: int = R, slow: tuple[float, float] = slow) -> dict[str, Any]:
+                return execute(ChoiceEnv(ch), client_retry=R, override_retry=None, client_timeout=0.4,
+                               override_timeout=None, slow=slow)
+
+            for _vec, t in explore(runit5, 3 if tier == "quick" else 4):
+                add(t, "enum-slow-transport")
     # ---- 3. long scripts across the limits
     for script, R, ot in long_scripts():
         add(execute(ListEnv(script), client_retry=R, override_retry=None, client_timeout=2.0,
@@ -444,7 +458,7 @@ def replay(path: str) -> int:
         t = execute(ListEnv(sc), client_retry=c["client_retry"], override_retry=c["override_retry"],
                     client_timeout=c["client_timeout"], override_timeout=c["override_timeout"],
                     reconfigured_from=tuple(c["reconfigured_from"]) if c.get("reconfigured_from") else None,
-                    via=c.get("via", "typed"))
+                    via=c.get("via", "typed"), slow=tuple(c["slow"]) if c.get("slow") else None)
         verdict = validate([t])[0]
         print(f"replay script={sc[:12]} R={t['R']} outcome={t['outcome']} verdict={verdict}")
         bad += verdict != "ok"
